@@ -253,6 +253,10 @@ def prove(ctx, modules, theorems):
     changed = regen_facts(ctx)
     if changed:
         ctx.notes.append("facts regenerated from the source differ from the committed Generated/Facts.lean")
+    if any(m in ("Helios.Props.C12", "Helios.Props.C03") for m in modules):
+        # these modules import Generated/Locks.lean: it must describe the tree being checked
+        if regen_locks(ctx):
+            ctx.notes.append("lock rows regenerated from the source differ from the committed Generated/Locks.lean")
     ok, log = lake_build(list(modules) + ["driver"])
     build_detail = ""
     blamed = {}      # theorem -> reason, for theorems of modules that no longer build
